@@ -189,13 +189,16 @@ def exc_name(e):
 
 # --------------------------------------------------------------------------- known findings
 def load_known():
-    """known_findings.json plus per-property fragments known_findings.d/*.json (same format)"""
-    res = []
+    """known_findings.json (the consolidated, committed file); while it is not marked consolidated, the per-property
+    fragments known_findings.d/*.json are read as well (development)"""
+    res, consolidated = [], False
     p = os.path.join(VERIF, 'known_findings.json')
     if os.path.exists(p):
-        res += json.load(open(p)).get('findings', [])
+        doc = json.load(open(p))
+        res += doc.get('findings', [])
+        consolidated = bool(doc.get('consolidated'))
     d = os.path.join(VERIF, 'known_findings.d')
-    if os.path.isdir(d):
+    if os.path.isdir(d) and not (consolidated and not os.environ.get('PMV_FRAGMENTS')):
         for f in sorted(os.listdir(d)):
             if f.endswith('.json'):
                 res += json.load(open(os.path.join(d, f))).get('findings', [])
